@@ -23,11 +23,25 @@ LiveS(i) == vals[i] # <<>>
 Exp(e) ==
     LET i == e.i
         j == e.j IN
-    CASE e.op = "from" -> LET r == L0TryFrom(fmt, e.x) IN
+    CASE (e.op # "from" /\ ~LiveS(i)) \/ (e.op = "push_tendril" /\ ~LiveS(j)) -> [res |-> "noslot", vals |-> vals]
+      [] e.op = "from" -> LET r == L0TryFrom(fmt, e.x) IN
             IF r.ok THEN [res |-> "ok", vals |-> [vals EXCEPT ![i] = <<e.x>>]] ELSE [res |-> r.err, vals |-> vals]
       [] e.op = "push" -> LET r == L0TryPush(fmt, V(i), e.x) IN
             IF r.ok THEN [res |-> "ok", vals |-> [vals EXCEPT ![i] = <<r.val>>]] ELSE [res |-> r.err, vals |-> vals]
-      [] e.op = "push_tendril" -> [res |-> "ok", vals |-> [vals EXCEPT ![i] = <<V(i) \o V(j)>>]]
+      [] e.op = "push_tendril" -> [res |-> "ok", vals |-> [vals EXCEPT ![i] = <<Cat(fmt, V(i), V(j))>>]]
+      [] e.op = "pop_char" ->
+            IF V(i) = <<>> THEN [res |-> "none", vals |-> [vals EXCEPT ![i] = <<<<>>>>]]
+            ELSE LET fc == FirstChar(fmt, V(i)) IN
+                 [res |-> "char:" \o ToString(fc.cp), vals |-> [vals EXCEPT ![i] = <<Drop(V(i), fc.n)>>]]
+      [] e.op = "pop_run" ->
+            IF V(i) = <<>> THEN [res |-> "none", vals |-> vals]
+            ELSE LET c == CharClass(FirstChar(fmt, V(i)).cp)
+                     n == RunLen(fmt, V(i), 1, c) IN
+                 [res |-> "run:" \o ToString(c), vals |-> [vals EXCEPT ![j] = <<Take(V(i), n)>>, ![i] = <<Drop(V(i), n)>>]]
+      [] e.op = "push_char" ->
+            IF IsSurrogate(e.a) \/ e.a > 1114111 THEN [res |-> "nochar", vals |-> vals]
+            ELSE IF CharOk(fmt, e.a) THEN [res |-> "ok", vals |-> [vals EXCEPT ![i] = <<V(i) \o CharBytes(fmt, e.a)>>]]
+            ELSE [res |-> "invalid", vals |-> vals]
       [] e.op = "sub" -> LET r == L0TrySub(fmt, V(i), e.a, e.b) IN
             IF r.ok THEN [res |-> "ok", vals |-> [vals EXCEPT ![j] = <<r.val>>]] ELSE [res |-> r.err, vals |-> vals]
       [] e.op = "pop_front" -> LET r == L0TryPopFront(fmt, V(i), e.a) IN
